@@ -172,8 +172,9 @@ class World:
                     raise Raised(v)
                 return v
             return call
-        for name in ("vecToMatSens", "vecToMatFF", "matToVecSens", "matToVecFF", "kronState", "kronParam"):
-            summ["shapeAdjust." + name] = sa_method(name)
+        for name in sa_cls.methods:
+            if not name.startswith("__"):
+                summ["shapeAdjust." + name] = sa_method(name)        # every method of the class, interpreted from its source
         w = self
 
         def rec(name, val):
